@@ -21,7 +21,8 @@
 (*  output oO creatable path  oBad path in a directory that does not exist *)
 (*  key    kK right key  kW well-formed wrong key  kShort(23) kBadChar     *)
 (*         kNoPad(24, no '=') kOnePad(24, one '=') kLong(28)               *)
-(*         kHigh (24 characters, one with the high bit set)                *)
+(*         kHigh (24 characters, one with the high bit set)  kMidPad (24   *)
+(*         characters ending in ==, with a further = in the middle)        *)
 (*  modes  c0 c2 c4 (valid, incl. both ends of the range)  c5 c100 c256    *)
 (*         c260 cNeg (-1)  cabc cEmpty (not numbers)   h0 h1 h2  h3 h256   *)
 (*         hNeg   cHuge hHuge (a number that does not fit an int)          *)
@@ -34,7 +35,7 @@ ModeTok == {"e", "d", "v", "V", "h", "le", "ld", "lv", "en", "dn", "vn", "leAbbr
 ModeOf(t) == CASE t \in {"e", "le", "en", "leAbbr"} -> "e" [] t \in {"d", "ld", "dn"} -> "d" [] t \in {"v", "lv", "vn"} -> "v"
                [] t = "V" -> "V" [] t = "h" -> "h"
 Tokens == ModeTok \cup {"n", "iF", "iE", "iMissing", "iLong", "iLen122", "iLen123", "iProc", "iNoArg", "iBadC", "iBadH", "iTam", "iEmpty", "oO", "oBad", "kK", "kW", "kShort", "kBadChar",
-                        "kNoPad", "kOnePad", "kLong", "kHigh", "kEmpty", "c0", "c2", "c4", "c5", "c100", "c256", "c260", "cNeg", "cHuge", "cabc", "cEmpty",
+                        "kNoPad", "kOnePad", "kLong", "kHigh", "kMidPad", "kEmpty", "c0", "c2", "c4", "c5", "c100", "c256", "c260", "cNeg", "cHuge", "cabc", "cEmpty",
                         "h0", "h1", "h2", "h3", "h256", "hNeg", "hHuge", "iEmptyArg", "oEmptyArg", "kAbbr", "cAbbr", "x", "stray"}
 S0 == [mode |-> "u", ct |-> FALSE, ht |-> FALSE, in |-> "none", out |-> "none", key |-> "none", quiet |-> FALSE, err |-> FALSE, may |-> FALSE]
 
@@ -50,7 +51,7 @@ Step(s, t) ==
   ELSE IF t = "iLen122" THEN [s EXCEPT !.in = "F"]                      \* the longest path whose default output name fits
   ELSE IF t = "iProc" THEN [s EXCEPT !.in = "R"]
   ELSE IF t \in {"iBadC", "iBadH", "iTam", "iEmpty"} THEN [s EXCEPT !.in = "X"]
-  ELSE IF t \in {"iMissing", "iNoArg", "iEmptyArg", "oBad", "oEmptyArg", "kShort", "kBadChar", "kNoPad", "kOnePad", "kLong", "kHigh", "kEmpty",
+  ELSE IF t \in {"iMissing", "iNoArg", "iEmptyArg", "oBad", "oEmptyArg", "kShort", "kBadChar", "kNoPad", "kOnePad", "kLong", "kHigh", "kMidPad", "kEmpty",
                   "c5", "c100", "c256", "c260", "cNeg", "cHuge", "h3", "h256", "hNeg", "hHuge", "x"}
        THEN [s EXCEPT !.err = TRUE]
   ELSE IF t = "oO" THEN [s EXCEPT !.out = "O"]
@@ -97,6 +98,6 @@ Seqs(n) == UNION { [1..k -> Tokens] : k \in 0..n }
 NoModeFails == \A ts \in Seqs(2) : (\A i \in 1..Len(ts) : ts[i] \notin ModeTok) => Class(ts) = "FAIL"
 TwoModesFail == \A a, b \in ModeTok : Class(<<a, b>>) = "FAIL" /\ Class(<<a, "iF", b>>) = "FAIL"
 NeedKey == \A ts \in Seqs(3) : (ModeFinal(ts) \in {"d", "v"} /\ \A i \in 1..Len(ts) : ts[i] \notin {"kK", "kW", "kAbbr"}) => Class(ts) = "FAIL"
-BadValueFails == \A bad \in {"kShort", "kBadChar", "kNoPad", "kOnePad", "kLong", "c5", "c256", "cNeg", "h3", "h256", "hNeg", "x", "oBad", "iMissing", "kEmpty", "iEmptyArg", "oEmptyArg"} :
+BadValueFails == \A bad \in {"kShort", "kBadChar", "kNoPad", "kOnePad", "kLong", "kMidPad", "c5", "c256", "cNeg", "h3", "h256", "hNeg", "x", "oBad", "iMissing", "kEmpty", "iEmptyArg", "oEmptyArg"} :
                    \A ts \in Seqs(2) : Class(ts \o <<bad>>) = "FAIL"
 =============================================================================
